@@ -5,6 +5,8 @@ and of the double-and-add loop `edMul`.
 -/
 import BipVerif.Lemmas.EdGroup.Field
 
+set_option linter.unusedSimpArgs false
+
 namespace BipVerif.EdGroup
 open BipVerif BipVerif.Prim BipVerif.WGroup EdCurve
 
@@ -232,5 +234,53 @@ theorem edExtDouble_rep {E : EdExt} {P : EdPt} (h : ERep E P) :
     simp only [cast_subMod, cast_negMod, cast_mod, Nat.cast_mul, Nat.cast_add, Nat.cast_ofNat,
       eX, eY]
     linear_combination (-2 * (E.Z : F) ^ 4 * P.x * P.y * (P.x ^ 2 + P.y ^ 2) * (edC.d * P.x ^ 2 * P.y ^ 2 - P.x ^ 2 + P.y ^ 2 - 1)) * hon
+
+/-! ## scalar multiplication -/
+
+theorem edMulLoop_succ (k : ℕ) (Q : EdExt) (i : ℕ) (acc : EdExt) :
+    edMulLoop k Q (i + 1) acc =
+      edMulLoop k Q i
+        (if k / 2 ^ i % 2 = 1 then edExtAdd (edExtDouble acc) Q else edExtDouble acc) := rfl
+
+/-- Loop invariant of the MSB-first double-and-add. -/
+theorem edMulLoop_rep (k : ℕ) {Q : EdExt} {P : EdPt} (hQ : ERep Q P) :
+    ∀ (i : ℕ) (acc : EdExt) (A : EdPt), ERep acc A →
+      ERep (edMulLoop k Q i acc) (2 ^ i • A + (k % 2 ^ i) • P)
+  | 0, acc, A, h => by
+    simpa [edMulLoop, Nat.mod_one] using h
+  | i + 1, acc, A, h => by
+    rw [edMulLoop_succ]
+    have hd := edExtDouble_rep h
+    have hmod : k % 2 ^ (i + 1) = k % 2 ^ i + 2 ^ i * (k / 2 ^ i % 2) := Nat.mod_pow_succ
+    by_cases hb : k / 2 ^ i % 2 = 1
+    · rw [if_pos hb]
+      have := edMulLoop_rep k hQ i _ _ (edExtAdd_rep hd hQ)
+      convert this using 1
+      rw [hmod, hb, mul_one, pow_succ, mul_nsmul, add_nsmul, nsmul_add, nsmul_add, two_nsmul]
+      abel
+    · rw [if_neg hb]
+      have hb0 : k / 2 ^ i % 2 = 0 := by omega
+      have := edMulLoop_rep k hQ i _ _ hd
+      convert this using 1
+      rw [hmod, hb0, mul_zero, add_zero, pow_succ, mul_nsmul, two_nsmul, nsmul_add]
+
+/-- **Correctness of `edMul`**: it is `k • P` in the group, for every `k`. -/
+theorem edMul_correct (k : ℕ) {P : EdPoint} (hP : edOnCurve P = true) :
+    toE (edMul k P) = k • toE P ∧ edOnCurve (edMul k P) = true := by
+  unfold edMul
+  by_cases hk : k = 0
+  · rw [if_pos hk, hk, zero_nsmul]; exact ⟨toE_identity, edIdentity_onCurve⟩
+  · rw [if_neg hk]
+    have h := edMulLoop_rep k (ERep.ofAffine hP) (Nat.log2 k + 1) edExtId 0 ERep.id
+    have hlt : k < 2 ^ (Nat.log2 k + 1) := by
+      rw [Nat.log2_eq_log_two]; exact Nat.lt_pow_succ_log_self (by norm_num) k
+    rw [nsmul_zero, zero_add, Nat.mod_eq_of_lt hlt] at h
+    exact ⟨h.toAffine.2, h.toAffine.1⟩
+
+theorem toE_edMul (k : ℕ) {P : EdPoint} (hP : edOnCurve P = true) :
+    toE (edMul k P) = k • toE P := (edMul_correct k hP).1
+
+theorem edOnCurve_edMul (k : ℕ) {P : EdPoint} (hP : edOnCurve P = true) :
+    edOnCurve (edMul k P) = true := (edMul_correct k hP).2
 
 end BipVerif.EdGroup
